@@ -28,6 +28,86 @@ def pickler_class(e):
 FRESH_CALLS = ("dict", "copy", "deepcopy")
 
 
+# ---------------------------------------------------------------------------
+# role resolution of private names (a rename must not look like a violation)
+# ---------------------------------------------------------------------------
+
+def pickler_globals(e):
+    """(name global, class global): what get_loky_pickler_name() / get_loky_pickler() return."""
+    out = []
+    for fn in ("get_loky_pickler_name", "get_loky_pickler"):
+        f = e.prog.func(f"{RD}:{fn}")
+        rets = [n for n in func_nodes(f) if isinstance(n, ast.Return) and isinstance(n.value, ast.Name)]
+        if len(rets) != 1:
+            raise AnalysisError(f"{fn}: does not return one module global")
+        out.append(rets[0].value.id)
+    return tuple(out)
+
+
+def module_reducer_table(e):
+    """The module-level table written by the public register(type_, reduce_function)."""
+    f = e.prog.func(f"{RD}:register")
+    for n in func_nodes(f):
+        if isinstance(n, ast.Assign) and isinstance(n.targets[0], ast.Subscript) and isinstance(n.targets[0].value, ast.Name) \
+                and isinstance(n.targets[0].slice, ast.Name) and n.targets[0].slice.id == f.params[0]:
+            return n.targets[0].value.id
+    raise AnalysisError("register(): the module-level reducer table is not recognised")
+
+
+def table_setter(e, pc):
+    """The method of the pickler class that installs the instance's dispatch table."""
+    c = [m for nm, m in pc.methods.items() if nm not in ("__init__", "register") and
+         any(isinstance(n, ast.Attribute) and n.attr == "dispatch_table" and isinstance(n.ctx, ast.Store) for n in func_nodes(m))]
+    if len(c) != 1:
+        raise AnalysisError("pickler class: the method installing the dispatch table is not unique")
+    return c[0]
+
+
+def wrapper_fields(e):
+    """(attribute holding the wrapped object, attribute holding the keep flag) read off the base wrapper's constructor."""
+    base, _ = _wrapper_classes(e)
+    ini = base.methods.get("__init__")
+    if ini is None or len(ini.params) < 3:
+        raise AnalysisError("wrapper base class: constructor (self, obj, keep_wrapper) not recognised")
+    got = {}
+    for n in func_nodes(ini):
+        if isinstance(n, ast.Assign) and isinstance(n.targets[0], ast.Attribute) and isinstance(n.targets[0].value, ast.Name) and n.targets[0].value.id == ini.params[0] \
+                and isinstance(n.value, ast.Name) and n.value.id in ini.params[1:3]:
+            got[n.value.id] = n.targets[0].attr
+    if set(got) != set(ini.params[1:3]):
+        raise AnalysisError("wrapper base class: the two fields are not stored from the constructor's parameters")
+    return got[ini.params[1]], got[ini.params[2]]
+
+
+def instance_dispatch(e):
+    """The function that chooses the wrapper class by callable(obj) (the only place wrappers are constructed)."""
+    base, subs = _wrapper_classes(e)
+    wq = {c.qualname for c in [base] + subs}
+    c = set()
+    for f, call in e.all_calls():
+        if f.module.name == CW and {v[1] for v in e.pt.ev(f, call.func) if v[0] == "class"} & wq:
+            if any(isinstance(t, ast.Call) and norm(t.func) == "callable" for t in func_nodes(f)):
+                c.add(f.qualname)
+    if len(c) != 1:
+        raise AnalysisError(f"wrapper dispatch on callable(obj) not unique: {sorted(c)}")
+    return e.prog.funcs[c.pop()]
+
+
+def rebuild_func(e, disp):
+    """The function a kept wrapper reduces to: the callee of __reduce__'s second return that itself calls the dispatch."""
+    base, _ = _wrapper_classes(e)
+    rd = base.methods["__reduce__"]
+    c = set()
+    for r in func_nodes(rd):
+        if isinstance(r, ast.Return) and isinstance(r.value, ast.Tuple) and r.value.elts:
+            for v in e.pt.ev(rd, r.value.elts[0]):
+                if v[0] == "func" and v[1] in e.prog.funcs and any(isinstance(n, ast.Call) and disp.qualname in e.callees_of(n) for n in func_nodes(e.prog.funcs[v[1]])):
+                    c.add(v[1])
+    if len(c) != 1:
+        raise AnalysisError("wrapper: the rebuild function of a kept wrapper is not recognised")
+    return e.prog.funcs[c.pop()]
+
+
 def _is_fresh(x):
     if isinstance(x, (ast.Dict, ast.DictComp)):
         return True
@@ -45,7 +125,7 @@ def r_pickler_fresh(e, R):
     g = e.cfg(init)
     selfn = init.params[0]
     # the installation: call (or store) that sets the instance's table
-    setter = pc.methods.get("_set_dispatch_table")
+    setter = table_setter(e, pc)
     inst = []
     for n in g.nodes:
         for c in calls_in(n):
@@ -275,13 +355,14 @@ def r_pickler_name(e, R):
     R.check("__getstate__" not in ci.methods and "__reduce__" not in ci.methods, "R-PICKLER-NAME", "the recorded name travels with the call item (default pickling)",
             ci.name, "no custom __reduce__", "custom pickling of the call item may drop the pickler name", None)
     gl = e.prog.func(getn)
-    R.check(any(isinstance(n, ast.Return) and isinstance(n.value, ast.Name) and n.value.id == "_loky_pickler_name" for n in func_nodes(gl)), "R-PICKLER-NAME",
-            "get_loky_pickler_name returns the current selection", gl.short, "return _loky_pickler_name", "the recorded name is not the current pickler", e.loc(gl, gl.node))
+    name_glob, class_glob = pickler_globals(e)
+    R.check(any(isinstance(n, ast.Return) and isinstance(n.value, ast.Name) and n.value.id == name_glob and name_glob not in gl.locals for n in func_nodes(gl)), "R-PICKLER-NAME",
+            "get_loky_pickler_name returns the current selection (a module global)", gl.short, f"return {name_glob}", "the recorded name is not the current pickler", e.loc(gl, gl.node))
     sl = e.prog.func(setn)
-    stores = [n for n in func_nodes(sl) if isinstance(n, ast.Assign) and isinstance(n.targets[0], ast.Name) and n.targets[0].id in ("_loky_pickler_name", "_LokyPickler")]
+    stores = [n for n in func_nodes(sl) if isinstance(n, ast.Assign) and isinstance(n.targets[0], ast.Name) and n.targets[0].id in (name_glob, class_glob)]
     sg = e.cfg(sl)
-    R.check(len(stores) == 2 and {"_loky_pickler_name", "_LokyPickler"} <= sl.globals_decl, "R-PICKLER-NAME", "set_loky_pickler updates class and name together", sl.short,
-            "_LokyPickler = ...; _loky_pickler_name = ...", "the pickler class and its recorded name can diverge", e.loc(sl, sl.node))
+    R.check(len(stores) == 2 and {name_glob, class_glob} <= sl.globals_decl, "R-PICKLER-NAME", "set_loky_pickler updates class and name together", sl.short,
+            f"{class_glob} = ...; {name_glob} = ...", "the pickler class and its recorded name can diverge", e.loc(sl, sl.node))
     R.floor("R-PICKLER-NAME", 5)
 
 
@@ -291,7 +372,7 @@ def r_pickler_select(e, R):
     sl = e.prog.func(f"{RD}:set_loky_pickler")
     g = e.cfg(sl)
     p0 = sl.params[0]
-    cur = "_loky_pickler_name"
+    cur, class_glob = pickler_globals(e)
 
     def cmp_ev(kind, val):
         def ev(x):
@@ -307,7 +388,7 @@ def r_pickler_select(e, R):
                     return val == isinstance(op, ast.Is)
             return None
         return ev
-    gstores = lambda n: n.kind == "stmt" and isinstance(n.ast, ast.Assign) and isinstance(n.ast.targets[0], ast.Name) and n.ast.targets[0].id in ("_LokyPickler", cur) \
+    gstores = lambda n: n.kind == "stmt" and isinstance(n.ast, ast.Assign) and isinstance(n.ast.targets[0], ast.Name) and n.ast.targets[0].id in (class_glob, cur) \
         and n.ast.targets[0].id in sl.globals_decl
     imp = lambda n: any(norm(c.func).endswith("import_module") and c.args and isinstance(c.args[0], ast.Name) and c.args[0].id == p0 for c in calls_in(n))
     envset = lambda n: n.kind == "stmt" and isinstance(n.ast, ast.Assign) and isinstance(n.ast.targets[0], ast.Name) and n.ast.targets[0].id == p0 \
@@ -335,9 +416,11 @@ def r_pickler_select(e, R):
     ini = pc.methods["__init__"]
     reg = pc.methods.get("register")
     ig = e.cfg(ini)
-    upd = lambda n: any(isinstance(c.func, ast.Attribute) and c.func.attr == "update" and c.args and isinstance(c.args[0], ast.Name) and c.args[0].id == "_dispatch_table"
+    mod_table = module_reducer_table(e)
+    upd = lambda n: any(isinstance(c.func, ast.Attribute) and c.func.attr == "update" and c.args and isinstance(c.args[0], ast.Name) and c.args[0].id == mod_table
                         for c in calls_in(n))
-    setdt = lambda n: any(isinstance(c.func, ast.Attribute) and c.func.attr == "_set_dispatch_table" for c in calls_in(n))
+    setter_q = table_setter(e, pc).qualname
+    setdt = lambda n: any(setter_q in e.callees_of(c) or (isinstance(c.func, ast.Attribute) and c.func.attr == setter_q.split(".")[-1]) for c in calls_in(n))
     regc = lambda n: any(reg is not None and reg.qualname in e.callees_of(c) for c in calls_in(n))
     for what, pr, why in (("adds loky's module-level reducers (register())", upd, "reducers registered with loky.backend.reduction.register are ignored by every queue"),
                           ("installs the private table on the pickler", setdt, "the pickler keeps the shared class-level table")):
@@ -440,7 +523,8 @@ def _has_call(e, cq):
 def r_wrap_dispatch(e, R):
     base, subs = _wrapper_classes(e)
     # (a) the instance path dispatches on callable()
-    disp = e.prog.func(f"{CW}:_wrap_non_picklable_objects")
+    disp = instance_dispatch(e)
+    OBJ, KEEP = wrapper_fields(e)
     g = e.cfg(disp)
     tests = [t for t in g.nodes if t.kind == "test" and isinstance(t.ast, ast.Call) and norm(t.ast.func) == "callable"]
     ok = False
@@ -461,7 +545,7 @@ def r_wrap_dispatch(e, R):
         cls = {v[1] for v in e.pt.ev(f, c.func) if v[0] == "class"} & wq
         if cls and f is not disp:
             R.fail("R-WRAP-DISPATCH", f.short, norm(c)[:70], "a wrapper is constructed outside the callable() dispatch", e.loc(f, c))
-    rec = e.prog.func(f"{CW}:_reconstruct_wrapper")
+    rec = rebuild_func(e, disp)
     R.check(any(isinstance(n, ast.Call) and disp.qualname in e.callees_of(n) for n in func_nodes(rec)), "R-WRAP-DISPATCH",
             "a wrapper rebuilt after a pickle round trip goes through the same dispatch", rec.short, "_wrap_non_picklable_objects(obj, keep_wrapper)",
             "after a round trip the wrapper's callability is decided differently", e.loc(rec, rec.node))
@@ -497,7 +581,7 @@ def r_wrap_dispatch(e, R):
                 "through a pickle round trip (or a non-callable one becomes callable)", e.loc(pub, c.node))
     cw = e.prog.cls(f"{CW}:CallableObjectWrapper")
     cm = cw.methods.get("__call__")
-    okf = cm is not None and any(isinstance(n, ast.Return) and isinstance(n.value, ast.Call) and norm(n.value.func) == f"{cm.params[0]}._obj"
+    okf = cm is not None and any(isinstance(n, ast.Return) and isinstance(n.value, ast.Call) and norm(n.value.func) == f"{cm.params[0]}.{OBJ}"
                                  and any(isinstance(x, ast.Starred) for x in n.value.args) and any(k.arg is None for k in n.value.keywords) for n in func_nodes(cm))
     R.check(okf, "R-WRAP-DISPATCH", "the callable wrapper forwards the call unchanged", cw.name, "return self._obj(*args, **kwargs)", "calls are not forwarded with all "
             "arguments / the result is dropped", e.loc(cm, cm.node) if cm else None)
@@ -524,7 +608,7 @@ def r_wrap_dispatch(e, R):
             return None
         return ev
     deleg = lambda n: n.kind == "stmt" and isinstance(n.ast, ast.Return) and isinstance(n.ast.value, ast.Call) and norm(n.ast.value.func) == "getattr" \
-        and len(n.ast.value.args) == 2 and norm(n.ast.value.args[0]) == f"{ga.params[0]}._obj" and isinstance(n.ast.value.args[1], ast.Name) and n.ast.value.args[1].id == ap
+        and len(n.ast.value.args) == 2 and norm(n.ast.value.args[0]) == f"{ga.params[0]}.{OBJ}" and isinstance(n.ast.value.args[1], ast.Name) and n.ast.value.args[1].id == ap
     SC.must(e, R, "R-WRAP-DISPATCH", ga, "an attribute of the wrapped object is looked up", [], deleg, "forwards the lookup to the wrapped object",
             "the wrapper does not expose the attributes of the object it wraps (or recurses forever)", evaluators=[reserved(False)])
     SC.never(e, R, "R-WRAP-DISPATCH", ga, "one of the wrapper's own fields is missing (half-built / unpickling)", [], deleg, "a lookup on self._obj",
@@ -534,6 +618,7 @@ def r_wrap_dispatch(e, R):
 
 def r_wrap_fields(e, R):
     base, subs = _wrapper_classes(e)
+    OBJ, KEEP = wrapper_fields(e)
     bi = base.methods["__init__"]
     battrs = {n.attr for n in func_nodes(bi) if isinstance(n, ast.Attribute) and isinstance(n.ctx, ast.Store) and isinstance(n.value, ast.Name) and n.value.id == bi.params[0]}
     R.info["wrapper_fields"] = sorted(battrs)
@@ -548,11 +633,11 @@ def r_wrap_fields(e, R):
         # the keep_wrapper flag stored is the one requested
         pub = c.parent_func
         if pub is not None:
-            okk = any(isinstance(n, ast.Assign) and isinstance(n.targets[0], ast.Attribute) and n.targets[0].attr == "_keep_wrapper" and isinstance(n.value, ast.Name)
+            okk = any(isinstance(n, ast.Assign) and isinstance(n.targets[0], ast.Attribute) and n.targets[0].attr == KEEP and isinstance(n.value, ast.Name)
                       and n.value.id in pub.params for n in func_nodes(ci))
             R.check(okk, "R-WRAP-FIELDS", f"{c.name}: keeps the requested keep_wrapper flag", ci.short, "self._keep_wrapper = keep_wrapper", "keep_wrapper is ignored for classes",
                     e.loc(ci, ci.node))
-            oko = any(isinstance(n, ast.Assign) and isinstance(n.targets[0], ast.Attribute) and n.targets[0].attr == "_obj" and isinstance(n.value, ast.Call)
+            oko = any(isinstance(n, ast.Assign) and isinstance(n.targets[0], ast.Attribute) and n.targets[0].attr == OBJ and isinstance(n.value, ast.Call)
                       and isinstance(n.value.func, ast.Name) and n.value.func.id in pub.params and any(isinstance(x, ast.Starred) for x in n.value.args)
                       and any(k.arg is None for k in n.value.keywords) for n in func_nodes(ci))
             R.check(oko, "R-WRAP-FIELDS", f"{c.name}: the instance is built by the wrapped class with the caller's arguments", ci.short, "self._obj = obj(*args, **kwargs)",
@@ -586,7 +671,7 @@ def r_wrap_fields(e, R):
         for n in func_nodes(ga):
             if isinstance(n, ast.Compare) and isinstance(n.ops[0], ast.NotIn) and isinstance(n.comparators[0], (ast.List, ast.Tuple, ast.Set)):
                 lits = {x.value for x in n.comparators[0].elts if isinstance(x, ast.Constant)}
-        fwd = any(isinstance(n, ast.Return) and isinstance(n.value, ast.Call) and norm(n.value.func) == "getattr" and norm(n.value.args[0]) == f"{ga.params[0]}._obj"
+        fwd = any(isinstance(n, ast.Return) and isinstance(n.value, ast.Call) and norm(n.value.func) == "getattr" and norm(n.value.args[0]) == f"{ga.params[0]}.{OBJ}"
                   and isinstance(n.value.args[1], ast.Name) and n.value.args[1].id == ga.params[1] for n in func_nodes(ga))
         okg = lits == battrs and fwd
     R.check(okg, "R-WRAP-FIELDS", "__getattr__ forwards every name except exactly the wrapper's own fields", base.name, f"not in {sorted(battrs)}",
@@ -605,7 +690,10 @@ def r_wrap_reduce(e, R):
         R.check("__reduce__" not in c.methods, "R-WRAP-REDUCE", f"{c.name} inherits the wrapper's __reduce__", c.name, "__reduce__", "a subclass overrides the pickling protocol", None)
     g = e.cfg(rd)
     selfn = rd.params[0]
-    tests = [t for t in g.nodes if t.kind == "test" and isinstance(t.ast, ast.Attribute) and t.ast.attr == "_keep_wrapper"]
+    OBJ, KEEP = wrapper_fields(e)
+    disp_ = instance_dispatch(e)
+    rebuild_q = rebuild_func(e, disp_).qualname
+    tests = [t for t in g.nodes if t.kind == "test" and isinstance(t.ast, ast.Attribute) and t.ast.attr == KEEP]
     rets = [n for n in g.nodes if n.kind == "stmt" and isinstance(n.ast, ast.Return)]
     if not tests or len(rets) != 2:
         R.fail("R-WRAP-REDUCE", rd.short, "keep_wrapper branches", "__reduce__ no longer branches on keep_wrapper", e.loc(rd, rd.node))
@@ -620,7 +708,7 @@ def r_wrap_reduce(e, R):
         if isinstance(v, ast.Tuple) and len(v.elts) == 2 and isinstance(v.elts[1], ast.Tuple) and v.elts[1].elts and isinstance(v.elts[1].elts[0], ast.Name):
             payload = v.elts[1].elts[0].id
     defs = e.local_defs(rd, payload) if payload else []
-    fresh = bool(defs) and all(isinstance(d, ast.Call) and norm(d.func) == "dumps" and d.args and norm(d.args[0]) == f"{selfn}._obj"
+    fresh = bool(defs) and all(isinstance(d, ast.Call) and norm(d.func) == "dumps" and d.args and norm(d.args[0]) == f"{selfn}.{OBJ}"
                                and any(v == ("ext", "cloudpickle.dumps") for v in e.pt.ev(rd, d.func)) for d in defs)
     R.check(fresh, "R-WRAP-REDUCE", "the payload is cloudpickle.dumps(self._obj) computed by this very call", rd.short,
             "; ".join(norm(d)[:50] for d in defs) or "payload", "the pickled payload is not (always) a fresh cloudpickle.dumps of the wrapped object: "
@@ -638,8 +726,8 @@ def r_wrap_reduce(e, R):
         fn, args = v.elts[0], v.elts[1].elts
         if keep:
             fs = {x[1] for x in e.pt.ev(rd, fn) if x[0] == "func"}
-            okk = fs == {f"{CW}:_reconstruct_wrapper"} and len(args) == 2 and isinstance(args[0], ast.Name) and args[0].id == payload \
-                and norm(args[1]) == f"{selfn}._keep_wrapper"
+            okk = fs == {rebuild_q} and len(args) == 2 and isinstance(args[0], ast.Name) and args[0].id == payload \
+                and norm(args[1]) == f"{selfn}.{KEEP}"
             R.check(okk, "R-WRAP-REDUCE", "keep_wrapper=True: rebuilt through the re-wrapping constructor with the same flag", rd.short, norm(v),
                     "with keep_wrapper=True the object does not arrive wrapped with the same flag", e.loc(rd, r.ast))
         else:
